@@ -16,7 +16,8 @@ Tr == Batch[tid]
 E  == Tr[l]
 
 TraceInit == Init /\ tid \in 1 .. NTraces /\ l = 1
-Ev == E.op = "map" /\ GetMap(E.v, E.f, E.s, E.l) /\ last'.out = E.out /\ last'.ct = E.ct
+Ev == \/ E.op = "map" /\ GetMap(E.v, E.f, E.s, E.l) /\ last'.out = E.out /\ last'.ct = E.ct
+      \/ E.op = "info" /\ GetInfo(E.v, E.l, E.ql) /\ last'.out = E.out
 
 TraceNext ==
   /\ l <= Len(Tr)
